@@ -225,6 +225,49 @@ def _dup_case(arg):
     return True, "", inputs
 
 
+PREV_PATTERNS = ("target", "ends-match-middle-shifted", "ends-match-middle-unnumbered", "first-matches", "last-matches", "ends-unnumbered-middle-numbered", "all-equal-start")
+
+
+def _prev_case(arg):
+    """a previous numbering that agrees with the requested one in some places only (first and last line, or none, or all): every line is renumbered all the same"""
+    import cisco_acl
+    platform, shape, start, step, pattern = arg
+    items, leaves = build(shape, cisco_acl, itertools.count(1), platform)
+    acl = cisco_acl.Acl("ip access-list extended A" if platform == "ios" else "ip access-list A", platform=platform)
+    acl.items.extend(items)
+    n = len(leaves)
+    target = [0] * n if start == 0 else [start + i * step for i in range(n)]
+    prev = list(target)
+    mid = range(1, n - 1)
+    if pattern == "ends-match-middle-shifted":
+        prev = [t + (3 if i in mid else 0) for i, t in enumerate(target)]
+    elif pattern == "ends-match-middle-unnumbered":
+        prev = [0 if i in mid else t for i, t in enumerate(target)]
+    elif pattern == "first-matches":
+        prev = [t if i == 0 else 7 * (i + 1) for i, t in enumerate(target)]
+    elif pattern == "last-matches":
+        prev = [t if i == n - 1 else 7 * (i + 1) for i, t in enumerate(target)]
+    elif pattern == "ends-unnumbered-middle-numbered":
+        prev = [(25 + i) if i in mid else 0 for i in range(n)]
+    elif pattern == "all-equal-start":
+        prev = [start] * n
+    for o, q in zip(leaves, prev):
+        o.sequence = q
+    inputs = dict(platform=platform, shape=repr(shape), start=start, step=step, pattern=pattern, previous_numbers=prev)
+    try:
+        r = acl.resequence(start=start, step=step)
+    except Exception as ex:
+        return False, f"{type(ex).__name__}: {ex}", inputs
+    got = [o.sequence for o in leaves]
+    text_nums = []
+    for s_ in acl.line.split("\n")[1:]:
+        t_ = s_.split()
+        text_nums.append(int(t_[0]) if t_ and t_[0].isdigit() else 0)
+    if got != target or text_nums != target or r != (target[-1] if target else 0):
+        return False, f"previous numbers {prev}, resequence({start}, {step}): numbers {got}, rendered {text_nums}, returned {r}; expected {target}", inputs
+    return True, "", inputs
+
+
 def bounded(chk):
     import cisco_acl
     from pyvc.driver import pmap
@@ -247,6 +290,21 @@ def bounded(chk):
     chk.add_bounded("Acl.resequence end-to-end (real objects, rendered text)", evals, distinct,
                     f"all ordered trees with <= {max_leaves} leaves and nesting depth <= 3 ({len(all_shapes)} shapes) x start in {starts} x step in {steps} x platforms",
                     viol, time.time() - t0, samples, exhaustive=True)
+    # previous numberings that agree with the requested one in places
+    t0 = time.time()
+    pshapes = [sh for sh in shapes(4) if str(sh).count("'L'") >= 3][:: (1 if chk.tier == "thorough" else 2)]
+    pcases = [(p_, sh, st_, sp_, pat) for p_ in ("ios", "nxos") for sh in pshapes for st_, sp_ in ((10, 10), (5, 1), (0, 10), (100, 7)) for pat in PREV_PATTERNS]
+    pv = 0
+    for ok, what, inputs in pmap(_prev_case, pcases):
+        if not ok:
+            pv += 1
+            chk.finding("bounded/Acl.resequence", what, inputs=inputs, key="bounded/Acl.resequence:numbers:previous-numbering",
+                        cmd=("import sys; sys.path.insert(0, 'props'); import C10\n"
+                             f"ok, what, _ = C10._prev_case({(inputs['platform'], eval(inputs['shape']), inputs['start'], inputs['step'], inputs['pattern'])!r})\n"
+                             "print(what); sys.exit(0 if ok else 1)\n"))
+    chk.add_bounded("Acl.resequence over previous numberings that agree with the requested one in places (first / last / all lines)", len(pcases), len(pcases),
+                    f"{len(pshapes)} trees of 3..4 leaves x 4 (start, step) x {len(PREV_PATTERNS)} previous-numbering patterns x 2 platforms", pv, time.time() - t0,
+                    [list(map(str, pcases[9]))], exhaustive=True)
     # duplicate entries + a previous numbering (a renumbered entry may then compare equal to a not yet renumbered one)
     t0 = time.time()
     dres = pmap(_dup_case, [(p_, sh, a, b) for p_ in ("ios", "nxos") for sh in DUP_SHAPES
